@@ -217,7 +217,7 @@ pub fn run_inst<I: Inst>(o: &Opts) {
     }
     // exhaustive small scope
     let alpha = I::alphabet();
-    let budget: u64 = if o.thorough() { 1_000_000 } else { 30_000 };
+    let budget: u64 = if o.thorough() { 400_000 } else { 30_000 };
     let mut maxlen = 1usize;
     {
         let mut total = alpha.len() as u64;
